@@ -166,7 +166,7 @@ META["C14"] = M(
     floors={"quick": {"evals": 3000, "distinct": 300}, "thorough": {"evals": 60000, "distinct": 4000}},
     required=["orthonormal", "first-column", "T-real-symmetric-tridiagonal-nonneg", "T-is-QH-A-Q", "AQ-QT-vanishes-except-last-column",
               "spans-krylov-space", "column-count", "stops-when-exhausted", "eigenvalues-of-T-exact-after-exhaustion",
-              "ritz-values-ascending", "ritz-pairs"],
+              "ritz-values-ascending", "ritz-pairs", "no-zero-columns-unbatched"],
     rule="Hermitian operators Q diag(l) Q^H (real symmetric / complex Hermitian; simple, indefinite, log-spaced indefinite, "
          "repeated and tightly clustered spectra; n 1..60 plus 150-300 as a re-orthogonalisation stress), start vectors generic / "
          "one eigenvector / sum of few eigenvectors / default (keyed) / batched blocks (generic and mixed with eigenvector "
@@ -179,7 +179,8 @@ META["C15"] = M(
     shards={"quick": 16, "thorough": 64}, budget={"quick": 50, "thorough": 800},
     floors={"quick": {"evals": 3000, "distinct": 300}, "thorough": {"evals": 60000, "distinct": 4000}},
     required=["shapes", "first-column", "H-upper-hessenberg-nonneg-subdiagonal", "arnoldi-relation", "orthonormal-basis",
-              "padding-is-zero", "beyond-n-equals-n-steps", "full-run-gives-spectrum"],
+              "padding-is-zero", "beyond-n-equals-n-steps", "full-run-gives-spectrum", "no-eigenpairs-from-padding",
+              "eigenvalues-exact-after-breakdown"],
     rule="square operators V diag(l) V^-1 (real with conjugate pairs / complex, normal and non-normal, n 1..40 (200 in "
          "thorough), kappa<=1e2), start vectors generic / in a 1- or few-dimensional invariant subspace (breakdown) / default "
          "(keyed) / batched, max_iters 1..n+10 and the defaults, tol 1e-12..1e-5, through arnoldi(), Arnoldi()(A) and "
